@@ -391,7 +391,89 @@ def _pair(name, voc_q, n_q, voc_t, n_t, smoke, bounds, anchors=('gin.config_pars
   }
 
 
+# ---- real text below the token seam: literals that span physical lines, through every carrier -----------------
+# The token seam cannot show what happens to the TEXT before it is tokenised (round d seed C02-d: the line reader
+# expanded TABs in the leading whitespace of every physical line, also inside a triple-quoted literal).  Here the
+# real tokenizer runs on real text: a value containing a multi-line str/bytes literal whose continuation line
+# starts with some whitespace, in 5 contexts x 3 statement positions x 6 carriers; the stored value must be the
+# one (value and type) that Python evaluates the same literal text to.
+T_PREFIX = ['', 'b', 'r', 'Rb']
+T_QUOTE = ["'''", '"""']
+T_LEAD = ['', ' ', '    ', '\t', '\t ', ' \t', '\t\t', '\x0c', '\\t']     # the last one is the two characters \ t
+T_REST = ['second', '', 'x\ty  ']
+T_CONTEXT = ['%s', '[%s, 1]', '(%s,)', "{'k': %s}", "'x' %s", "[1,\n\t%s]"]
+T_CARRIERS = ['str', 'list of lines', 'str readline', 'bytes readline', 'str, CRLF line ends', 'no final newline']
+
+
+class _Lines:
+  def __init__(self, text, as_bytes):
+    import io
+    self._f = io.BytesIO(text.encode('utf8')) if as_bytes else io.StringIO(text, newline='')   # lines end at \n only
+    self.readline = self._f.readline
+
+
+def c02_text(prefix: int, quote: int, lead: int, rest: int, ctx: int, pos: int, carrier: int) -> bool:
+  """
+  pre: 0 <= prefix < 4 and 0 <= quote < 2 and 0 <= lead < 9 and 0 <= rest < 3
+  pre: 0 <= ctx < 6 and 0 <= pos < 3 and 0 <= carrier < 6
+  """
+  prefix, quote, lead, rest = rt.pick(prefix, 4), rt.pick(quote, 2), rt.pick(lead, 9), rt.pick(rest, 3)
+  ctx, pos, carrier = rt.pick(ctx, 6), rt.pick(pos, 3), rt.pick(carrier, 6)
+  rt.sig(('text', prefix, quote, lead, rest, ctx, pos, carrier), nontrivial=True)
+  with rt.native():
+    q = T_QUOTE[quote]
+    if 'b' in T_PREFIX[prefix].lower() and ctx == 4:
+      rt.discard()                                   # str + bytes concatenation is not a literal
+    lit_text = '%s%sfirst\n%s%s%s' % (T_PREFIX[prefix], q, T_LEAD[lead], T_REST[rest], q)
+    value_text = T_CONTEXT[ctx] % lit_text
+    expected = ast.literal_eval(value_text)          # what Python evaluates that text to
+    if pos == 0:
+      text, query = 'vw.lit.p = %s\n' % value_text, 'vw.lit.p'
+    elif pos == 1:
+      text, query = 'vw.lit:\n  p = %s\nvw.dflt.a = 1\n' % value_text, 'vw.lit.p'
+    else:
+      text, query = 'm = %s\n' % value_text, 'm/gin.macro.value'
+    if carrier == 4:
+      text = text.replace('\n', '\r\n')
+      expected = ast.literal_eval(value_text.replace('\n', '\r\n'))
+    elif carrier == 5:
+      text = text[:-1]
+    world.fresh()
+    try:
+      if carrier == 1:
+        gin.parse_config(text.split('\n'))
+      elif carrier in (2, 3):
+        gin.parse_config(_Lines(text, carrier == 3))
+      else:
+        gin.parse_config(text)
+    except Exception as e:   # pylint: disable=broad-except
+      return rt.no('a literal of the grammar was rejected: %r\n%r' % (e, text))
+    got = gin.query_parameter(query)
+    if not (type(got) is type(expected) and repr(got) == repr(expected)):
+      return rt.no('stored %r, Python evaluates the text to %r\n%r' % (got, expected, text))
+    if pos == 1 and gin.query_parameter('vw.dflt.a') != 1:
+      return rt.no('the statement after the block was not read')
+  return True
+
+
 HARNESSES = {
+    'c02_text': dict(
+        fn='c02_text',
+        anchors=['gin.config_parser:_maybe_parse_basic_type', 'gin.config_parser:parse_statement'],
+        smoke=[dict(prefix=0, quote=0, lead=3, rest=0, ctx=0, pos=0, carrier=0),
+               dict(prefix=1, quote=1, lead=5, rest=2, ctx=1, pos=1, carrier=3),
+               dict(prefix=2, quote=0, lead=8, rest=1, ctx=5, pos=2, carrier=4),
+               dict(prefix=3, quote=1, lead=7, rest=0, ctx=3, pos=0, carrier=1),
+               dict(prefix=0, quote=0, lead=6, rest=0, ctx=4, pos=1, carrier=5),
+               dict(prefix=0, quote=1, lead=1, rest=1, ctx=2, pos=2, carrier=2)],
+        tiers={'quick': dict(split=dict(lead=list(range(9)), carrier=list(range(6))), fixed=dict(quote=0), budget_s=100),
+               'thorough': dict(split=dict(lead=list(range(9)), carrier=list(range(6))), budget_s=300)},
+        bounds='real text through the real tokenizer: a str/bytes literal (4 prefixes, 2 triple quotes) spanning two '
+               'physical lines whose continuation line starts with one of 9 whitespace runs (spaces, TABs, mixes, form '
+               'feed, the escape \\t) followed by 3 kinds of rest, in 6 contexts (alone, list, 1-tuple, dict value, '
+               'after an adjacent string, on a TAB-indented continuation line inside brackets) x 3 statement positions '
+               'x 6 carriers (str, list of lines, str readline, bytes readline, CRLF line ends, no final newline); '
+               'stored value == (type and repr) what ast.literal_eval gives for the same text'),
     'c02_tokens': dict(
         fn='c02_tokens',
         anchors=_A_ALL,
